@@ -81,6 +81,14 @@ RULES = {
     "R11": [(re.compile(r"\busize::from\("), "vf_usize_from(")],
     # R23: `x.into()` / `self.try_into()` -> generic wrapper fns (std's blanket Into / TryInto have no Verus specification)
     "R23": [(re.compile(r"\b((?:\w+\s*\.\s*)*\w+)\s*\.\s*into\(\)"), r"vf_into(\1)"), (re.compile(r"\b(\w+)\s*\.\s*try_into\(\)"), r"vf_try_into(\1)")],
+    # R28: `M.entry(K).or_insert_with(|| V);` (statement form) -> the definition of Entry::or_insert_with with the result
+    #      discarded: insert V under K only if K is absent.  K is evaluated twice (it must be a pure expression).
+    "R28": [(re.compile(r"\b(\w+(?:\s*\.\s*\w+)*)\s*\.\s*entry\(([^()]*(?:\([^()]*\))?[^()]*)\)\s*\.\s*or_insert_with\(\s*\|\|\s*([^;]*?)\)\s*;", re.S),
+             lambda m: "if !%s.contains_key(&%s) { %s.insert(%s, %s); }" % ("".join(m.group(1).split()), m.group(2).strip(), "".join(m.group(1).split()), m.group(2).strip(), m.group(3).strip()))],
+    # R29: `M.extend(V.iter().map(|T| (K, E)));` -> `for T in V.iter() { M.insert(K, E); }` (Extend<(K, V)> for a map inserts
+    #      every pair in iteration order)
+    "R29": [(re.compile(r"\b(\w+(?:\s*\.\s*\w+)*)\s*\.\s*extend\(\s*([\w\.\s]+?)\s*\.\s*iter\(\)\s*\.\s*map\(\s*\|\s*(\w+)\s*\|\s*\(([^,()]+),\s*([^;]*?)\)\s*\)\s*,?\s*\)\s*;", re.S),
+             lambda m: "for %s in %s.iter() { %s.insert(%s, %s); }" % (m.group(3), "".join(m.group(2).split()), "".join(m.group(1).split()), m.group(4).strip(), m.group(5).strip()))],
     # R21: `v.try_into()` on a `&FieldValue` -> generic wrapper fn (std's blanket TryInto has no Verus specification)
     "R21": [(re.compile(r"\b(\w+)\s*\.\s*try_into\(\)"), r"vf_try_into(\1)")],
 }
@@ -926,7 +934,7 @@ class Extractor:
                 self.meta.setdefault("opaque_statements", []).append(
                     {"fn": fname, "text": " ".join(stmt.split()),
                      "sha256": hashlib.sha256(stmt.encode()).hexdigest()[:16], "stub": val.strip()})
-            elif key.startswith(("beforefor ", "forstart ", "forend ")):
+            elif key.startswith(("beforefor ", "forstart ", "forend ", "afterfor ")):
                 if fl is None:
                     fl = loops(body, ("for",))
                 kind, n = key.split()
@@ -940,6 +948,8 @@ class Extractor:
                     pos = ks
                 elif kind == "forstart":
                     pos = ob + 1
+                elif kind == "afterfor":
+                    pos = match_close(mask(body), ob) + 1
                 else:
                     pos = match_close(mask(body), ob)
                 edits.append((pos, pos, " " + val.strip() + " "))
@@ -1054,7 +1064,7 @@ class Extractor:
         callees = sorted(set(re.findall(r"(?<![A-Za-z_0-9:])((?:[A-Za-z_][A-Za-z_0-9]*::)*[A-Za-z_][A-Za-z_0-9]*)\s*(?:::\s*<[^>]*>\s*)?\(", mraw)) |
                          set(m_ + "!" for m_ in re.findall(r"\b([A-Za-z_][A-Za-z_0-9]*)!", mraw)))
         self.meta["functions"].append({
-            "callees": callees, "closures": len(closures(raw[raw.find("{"):])),
+            "callees": callees, "closures": len(closures(body)),      # closures left after the rewrite rules: what the verifier sees
             "fn": fname, "src": src, "impl": impl_rx, "mod": modpath,
             "sha256": hashlib.sha256(raw.encode()).hexdigest()[:16],
             "lines": raw.count("\n") + 1, "rules": hits})
@@ -1124,7 +1134,7 @@ class Extractor:
                     d2 = s2[3:]
                     if d2.strip() == "end":
                         break
-                    mk = re.match(r"\s{0,3}((?:closureopt|closure|forloop|opaquefor|beforefor|forstart|forend|loopstart|loopend|beforeloop|afterloop|loop|r17call)\s+\d+|before\s+\"[^\"]*\"|after\s+\"[^\"]*\"|opaque\s+\"[^\"]*\"|onlystmt\s+\"[^\"]*\"|\w+):(.*)$", d2)
+                    mk = re.match(r"\s{0,3}((?:closureopt|closure|forloop|opaquefor|beforefor|forstart|forend|afterfor|loopstart|loopend|beforeloop|afterloop|loop|r17call)\s+\d+|before\s+\"[^\"]*\"|after\s+\"[^\"]*\"|opaque\s+\"[^\"]*\"|onlystmt\s+\"[^\"]*\"|\w+):(.*)$", d2)
                     if mk and not d2.startswith("     "):
                         opts.append([mk.group(1), mk.group(2)])
                     else:
